@@ -125,7 +125,8 @@ class Cron(addons.AddonMainTask, block.SBlock):
         reload = Flag(True)     # reload will also initialize the index
         short_sleep = False     # alternative sleep function used => do not compute overhead
         while True:
-            if reload.test_clear():
+            reloaded = reload.test_clear()
+            if reloaded:
                 timetable = sorted(_SET24.union(self._alarms))
                 tlen = len(timetable)
                 self.log_debug("time schedule reloaded")
@@ -133,6 +134,12 @@ class Cron(addons.AddonMainTask, block.SBlock):
 
             nowdt = self.dtnow()
             nowt = nowdt.time()
+            if reloaded and self._alarms:
+                # A wakeup time could have passed between the last recalc() of a block
+                # being (re)configured and this reload; the new index would skip it.
+                for blk in set.union(*self._alarms.values()):    # all blocks
+                    assert hasattr(blk, 'recalc')
+                    blk.recalc(nowdt)
             if index is None:
                 index = bisect.bisect_left(timetable, nowt) % tlen
             wakeup = timetable[index]
